@@ -19,6 +19,9 @@ STUBS = r'''
 #define VP_NDG 1
 #endif
 #define VP_DG_MAX 1500
+#ifndef VP_LEN_MAX
+#define VP_LEN_MAX VP_DG_MAX      /* bound on the RECEIVED length; the buffer tail stays arbitrary */
+#endif
 typedef struct { uint8_t d[VP_NDG][VP_DG_MAX]; uint16_t len[VP_NDG]; uint8_t cfg[4]; uint8_t st[16]; } vp_in_t;
 static vp_in_t vp_g;
 static int vp_dg_idx;
@@ -71,23 +74,27 @@ int printf(const char *fmt, ...)
     for (const char *p = fmt; *p; p++) {
         if (*p != '%') continue;
         p++;
-        while (*p == 'l' || *p == 'h' || *p == 'z' || *p == '"' || (*p >= '0' && *p <= '9') || *p == '.') {
-            if (*p == 'l') { p++; if (*p == 'l') p++; if (*p == 'd' || *p == 'u' || *p == 'x') { (void)va_arg(ap, long); goto next; } continue; }
-            p++;
+        int prec = -1, islong = 0;
+        /* flags / width / precision / length modifiers (bounded: at most 8 characters) */
+        for (int g = 0; g < 8; g++) {
+            if (*p == '.') { p++; if (*p == '*') { prec = va_arg(ap, int); p++; } continue; }
+            if (*p == 'l') { islong = 1; p++; continue; }
+            if (*p == 'h' || *p == 'z' || *p == '-' || *p == '+' || *p == '#' || *p == ' ' || (*p >= '0' && *p <= '9')) { p++; continue; }
+            break;
         }
         if (*p == 's') {
             const char *s = va_arg(ap, const char *);
             VP_ASSERT(s != 0, "C18 printf %s argument is not NULL");
             unsigned k = 0;
-            while (s[k] != 0) k++;           /* reading beyond the object fails a pointer check / ASan */
+            /* reading beyond the object fails a pointer check (CBMC) / an ASan check (replay) */
+            while ((prec < 0 || k < (unsigned)prec) && s[k] != 0) k++;
             vp_sink ^= (uint8_t)k;
         } else if (*p == 'f' || *p == 'g' || *p == 'e') {
             (void)va_arg(ap, double);
         } else if (*p == '%') {
         } else if (*p) {
-            (void)va_arg(ap, int);
+            if (islong) (void)va_arg(ap, long); else (void)va_arg(ap, int);
         } else break;
-next:   ;
     }
     va_end(ap);
     return 0;
@@ -111,7 +118,7 @@ int clock_gettime(clockid_t c, struct timespec *t) { (void)c; t->tv_sec = 170000
 static void vp_load_input(void)
 {
     VP_INPUT(vp_in_t, in);
-    for (int i = 0; i < VP_NDG; i++) VP_ASSUME(in.len[i] <= VP_DG_MAX);
+    for (int i = 0; i < VP_NDG; i++) VP_ASSUME(in.len[i] <= VP_LEN_MAX);
     vp_g = in; vp_dg_idx = 0; vp_fatal_env = 0; vp_writes = 0;
 }
 '''
@@ -174,3 +181,124 @@ def packet_fn_listener(path, name, call, ndg=1, pre=(), extra_stubs=''):
     o.append('  VP_REACH("c18 %s end");' % name)
     o.append('}')
     return '\n'.join(o) + '\n'
+
+
+# ------------------------------------------------------------------------------------------
+# C19: talker -> wire -> listener
+# ------------------------------------------------------------------------------------------
+TALKER_TU = r'''
+/* wrapper around the UNMODIFIED acf-can-talker.c: exports the packet assembly of its main loop */
+#include <stdint.h>
+#include <string.h>
+#include <time.h>
+#include <sys/types.h>
+#include <sys/socket.h>
+#include <netinet/in.h>
+#include <linux/if_packet.h>
+int setup_udp_socket_address(struct in_addr *a, uint32_t port, struct sockaddr_in *s) { (void)a; (void)port; (void)s; return 0; }
+int setup_socket_address(int fd, const char *ifn, uint8_t mac[], int proto, struct sockaddr_ll *s) { (void)fd; (void)ifn; (void)mac; (void)proto; (void)s; return 0; }
+ssize_t sendto(int fd, const void *b, size_t n, int fl, const struct sockaddr *a, socklen_t l) { (void)fd; (void)b; (void)fl; (void)a; (void)l; return (ssize_t)n; }
+#define main talker_main
+#include "acf-can/acf-can-talker.c"
+#undef main
+/* the body of the talker's sending loop for one packet carrying n CAN frames (acf-can-talker.c main()):
+ * optional UDP encapsulation header, control format header, n x prepare_acf_packet, update_cf_length */
+int vp_talker_build(uint8_t *pdu, const frame_t *frames, int n, int tscf, int udp, int fd)
+{
+    uint16_t pdu_length = 0, cf_length = 0;
+    int res;
+    use_tscf = tscf; use_udp = udp; can_variant = fd ? AVTP_CAN_FD : AVTP_CAN_CLASSIC;
+    if (use_udp) {
+        Avtp_Udp_t *udp_pdu = (Avtp_Udp_t *) pdu;
+        Avtp_Udp_SetField(udp_pdu, AVTP_UDP_FIELD_ENCAPSULATION_SEQ_NO, udp_seq_num++);
+        pdu_length += sizeof(Avtp_Udp_t);
+    }
+    uint8_t *cf_pdu = pdu + pdu_length;
+    res = init_cf_pdu(cf_pdu);
+    if (res < 0) return -1;
+    pdu_length += res; cf_length += res;
+    for (int i = 0; i < n; i++) {
+        uint8_t *acf_pdu = pdu + pdu_length;
+        res = prepare_acf_packet(acf_pdu, frames[i]);
+        if (res < 0) return -1;
+        pdu_length += res; cf_length += res;
+    }
+    res = update_cf_length(cf_pdu, cf_length);
+    if (res < 0) return -1;
+    return pdu_length;
+}
+'''
+
+
+def c19_tunnel(nframes, tscf, udp, fd, fixed_lens=()):
+    ftype = 'struct canfd_frame' if fd else 'struct can_frame'
+    maxlen = 64 if fd else 8
+    o = ['#define VP_NDG 1']
+    o.append('#include <linux/can.h>')
+    o.append('#include <stdint.h>')
+    o.append('static void vp_capture(const void *buf, unsigned long n);')
+    o.append('#define VP_CAPTURE_WRITE(b, n) vp_capture(b, n)')
+    o.append(STUBS.replace('typedef struct { uint8_t d[VP_NDG][VP_DG_MAX]; uint16_t len[VP_NDG]; uint8_t cfg[4]; uint8_t st[16]; } vp_in_t;',
+                           'typedef struct { uint8_t d[VP_NDG][VP_DG_MAX]; uint16_t len[VP_NDG]; uint8_t cfg[4]; uint8_t st[16]; '
+                           'struct { uint32_t can_id; uint8_t len; uint8_t flags; uint8_t data[%d]; } fr[%d]; uint8_t pdu0[200]; } vp_in_t;' % (maxlen, nframes)))
+    o.append('#include "avtp/acf/Can.h"')
+    o.append('int setup_can_socket(const char *ifn, Avtp_CanVariant_t variant) { (void)ifn; (void)variant; return 4; }')
+    o.append('#define main listener_main')
+    o.append('#include "acf-can/acf-can-listener.c"')
+    o.append('#undef main')
+    o.append('int vp_talker_build(uint8_t *pdu, const frame_t *frames, int n, int tscf, int udp, int fd);')
+    o.append('static uint8_t vp_out[%d][sizeof(struct canfd_frame)]; static unsigned vp_out_n; static unsigned long vp_out_sz[%d];' % (nframes + 1, nframes + 1))
+    o.append('static void vp_capture(const void *buf, unsigned long n) { if (vp_out_n < %d) { memcpy(vp_out[vp_out_n], buf, n < sizeof(struct canfd_frame) ? n : sizeof(struct canfd_frame)); vp_out_sz[vp_out_n] = n; } vp_out_n++; }' % (nframes + 1))
+    o.append('void harness(void) {')
+    o.append('  VP_INPUT(vp_in_t, in);')
+    o.append('  vp_g = in; vp_dg_idx = 0; vp_fatal_env = 0; vp_writes = 0; vp_out_n = 0;')
+    o.append('  frame_t fr[%d]; unsigned total = 0;' % nframes)
+    o.append('  for (int i = 0; i < %d; i++) {' % nframes)
+    o.append('    uint32_t id = in.fr[i].can_id;')
+    o.append('    /* what SocketCAN can deliver: no error frames, 11-bit ids without EFF, length within the variant */')
+    o.append('    VP_ASSUME((id & CAN_ERR_FLAG) == 0);')
+    o.append('    VP_ASSUME((id & CAN_EFF_FLAG) || (id & CAN_EFF_MASK) <= CAN_SFF_MASK);')
+    o.append('    VP_ASSUME(in.fr[i].len <= %d);' % maxlen)
+    # concrete lengths for all but the last frame keep the offsets of later messages concrete for the
+    # symbolic executor (a symbolic offset into the 1500-byte buffers exhausts memory: measured 40 GB)
+    for i, ln in enumerate(fixed_lens):
+        o.append('    if (i == %d) { VP_ASSUME(in.fr[i].len == %d); in.fr[i].len = %d; }' % (i, ln, ln))
+    o.append('    memset(&fr[i], 0, sizeof fr[i]);')
+    if fd:
+        o.append('    VP_ASSUME((in.fr[i].flags & ~(CANFD_BRS | CANFD_ESI)) == 0);')
+        o.append('    fr[i].fd.can_id = id; fr[i].fd.len = in.fr[i].len; fr[i].fd.flags = in.fr[i].flags; memcpy(fr[i].fd.data, in.fr[i].data, %d);' % maxlen)
+    else:
+        o.append('    fr[i].cc.can_id = id; fr[i].cc.len = in.fr[i].len; memcpy(fr[i].cc.data, in.fr[i].data, %d);' % maxlen)
+    o.append('    total += 16u + in.fr[i].len + ((4u - in.fr[i].len % 4u) % 4u);')
+    o.append('  }')
+    o.append('  /* talker: builds the packet into the (arbitrary) transmit buffer exactly as its sending loop does */')
+    o.append('  uint8_t *wire = vp_g.d[0]; memcpy(wire, in.pdu0, sizeof in.pdu0);')
+    o.append('  int plen = vp_talker_build(wire, fr, %d, %d, %d, %d);' % (nframes, tscf, udp, fd))
+    o.append('  VP_ASSERT(plen == (int)(%d + %d + total), "C19 talker packet length = encapsulation + control header + padded ACF messages");' % (4 if udp else 0, 24 if tscf else 12))
+    cf_off = 4 if udp else 0
+    if tscf:
+        o.append('  VP_ASSERT(spec_get(wire + %d, 160, 16) == total, "C19 TSCF stream_data_length announces exactly the bytes occupied by the ACF messages");' % cf_off)
+    else:
+        o.append('  VP_ASSERT(spec_get(wire + %d, 13, 11) == total, "C19 NTSCF ntscf_data_length announces exactly the bytes occupied by the ACF messages");' % cf_off)
+    o.append('  vp_g.len[0] = (uint16_t)plen;')
+    o.append('  /* listener: parses the datagram and writes CAN frames */')
+    o.append('  use_udp = %d; can_variant = %s;' % (udp, 'AVTP_CAN_FD' if fd else 'AVTP_CAN_CLASSIC'))
+    o.append('  int r = new_packet(3, 4);')
+    o.append('  VP_ASSERT(r == 1, "C19 listener accepts the packet built by the talker");')
+    o.append('  VP_ASSERT(vp_out_n == %d, "C19 listener emits exactly one CAN frame per frame handed to the talker");' % nframes)
+    o.append('  for (unsigned i = 0; i < %d && i < vp_out_n; i++) {' % nframes)
+    o.append('    %s of; memcpy(&of, vp_out[i], sizeof of);' % ftype)
+    o.append('    VP_ASSERT(vp_out_sz[i] == sizeof(%s), "C19 listener writes a frame of the variant\'s size");' % ftype)
+    o.append('    VP_ASSERT((of.can_id & CAN_EFF_MASK) == (in.fr[i].can_id & CAN_EFF_MASK), "C19 CAN identifier survives the tunnel");')
+    o.append('    VP_ASSERT((of.can_id & CAN_EFF_FLAG) == (in.fr[i].can_id & CAN_EFF_FLAG), "C19 extended-frame flag survives the tunnel");')
+    o.append('    VP_ASSERT((of.can_id & CAN_RTR_FLAG) == (in.fr[i].can_id & CAN_RTR_FLAG), "C19 remote-frame flag survives the tunnel");')
+    o.append('    VP_ASSERT((of.can_id & CAN_ERR_FLAG) == 0, "C19 no error flag is invented");')
+    o.append('    VP_ASSERT(of.len == in.fr[i].len, "C19 frame length survives the tunnel");')
+    o.append('    { int ok = 1; for (unsigned k = 0; k < %d; k++) if (k < in.fr[i].len && of.data[k] != in.fr[i].data[k]) ok = 0;' % maxlen)
+    o.append('      VP_ASSERT(ok, "C19 frame data survives the tunnel"); }')
+    if fd:
+        o.append('    VP_ASSERT((of.flags & (CANFD_BRS | CANFD_ESI)) == (in.fr[i].flags & (CANFD_BRS | CANFD_ESI)), "C19 FD flags BRS/ESI survive the tunnel (also for the 2nd and later frames of a packet)");')
+    o.append('  }')
+    o.append('  VP_REACH("c19 tunnel end");')
+    o.append('}')
+    return '\n'.join(o) + '\n', {'vp_talker.c': TALKER_TU}
